@@ -11,8 +11,14 @@ const VOUCH_PARAMS: raffle::VouchingParameters = raffle::VouchingParameters::par
     "VOUCH-773ec2a0e62c20cd-f9e079b78e895091-fc1da7b1b77c57cb-594b9cce3091464a",
 );
 
-/// `minute_start_s`: Unix timestamp (seconds) of the concrete calendar minute.
-fn new_at(year: i32, month: time::Month, day: u8, hour: u8, minute: u8, minute_start_s: i128, witness: bool) {
+/// `minute_start_s`: Unix timestamp (seconds) of the concrete calendar minute;
+/// `base_off_ms`: the base time is the concrete instant `minute start + base_off_ms`
+/// (a symbolic base time would put raffle's 64-bit multiplications on symbolic
+/// operands, which the SAT back end did not finish in 50 minutes; the base-time
+/// dimension is covered without bound by Engine M).  Seconds and nanoseconds are
+/// symbolic, so both window edges are crossed inside the minute by choosing the
+/// offset.
+fn new_at(year: i32, month: time::Month, day: u8, hour: u8, minute: u8, minute_start_s: i128, base_off_ms: i128, wrong_voucher: bool, witness: bool) {
     let sec: u8 = kani::any();
     let nanos: u32 = kani::any();
     kani::assume(sec < 60);
@@ -21,11 +27,10 @@ fn new_at(year: i32, month: time::Month, day: u8, hour: u8, minute: u8, minute_s
     let tod = time::Time::from_hms_nano(hour, minute, sec, nanos).unwrap();
     let local = time::PrimitiveDateTime::new(date, tod);
 
-    let base: u64 = kani::any();
-    // voucher for `base` itself, or for another value (then nothing is known
-    // about the voucher check, only that success implies the window)
-    let vouched_for: u64 = kani::any();
-    let voucher = VOUCH_PARAMS.vouch(vouched_for);
+    let base_i = minute_start_s * 1000 + base_off_ms;
+    let base: u64 = if base_i < 0 { 0 } else { base_i as u64 };
+    // voucher for `base` itself, or for base + 1 (a voucher for another value)
+    let voucher = VOUCH_PARAMS.vouch(if wrong_voucher { base + 1 } else { base });
 
     // oracle: milliseconds since the epoch, directly from the fields
     let local_ns: i128 = (minute_start_s + sec as i128) * 1_000_000_000 + nanos as i128;
@@ -36,20 +41,16 @@ fn new_at(year: i32, month: time::Month, day: u8, hour: u8, minute: u8, minute_s
     let got = VouchedTime::new(local, base, voucher);
     match got {
         Ok(vt) => {
-            assert!(in_window);
+            assert!(in_window && !wrong_voucher);
             // reports exactly the local time it was built from (and does not panic)
             assert!(vt.get_local_time() == local);
         }
-        Err(_) => {
-            if vouched_for == base {
-                assert!(!in_window);
-            }
-        }
+        Err(_) => assert!(!in_window || wrong_voucher),
     }
     kani::cover!(got_ok(&got) && delta == 2_990, "accepted at the forward edge");
     kani::cover!(got_ok(&got) && delta == -59_900, "accepted at the backward edge");
-    kani::cover!(!got_ok(&got) && vouched_for == base && delta == 2_991, "rejected one past the forward edge");
-    kani::cover!(!got_ok(&got) && vouched_for != base && in_window, "rejected: voucher for another value");
+    kani::cover!(!got_ok(&got) && delta == 2_991, "rejected one past the forward edge");
+    kani::cover!(!got_ok(&got) && delta == -59_901, "rejected one past the backward edge");
     std::mem::forget(got);
     if witness {
         assert!(false, "reachability witness: harness end reached");
@@ -60,36 +61,29 @@ fn got_ok(r: &std::io::Result<VouchedTime>) -> bool {
     r.is_ok()
 }
 
-#[kani::proof]
-#[kani::unwind(3)]
-fn c14_new_epoch_minute() {
-    // 1970-01-01 00:00
-    new_at(1970, time::Month::January, 1, 0, 0, 0, false)
+macro_rules! new_proofs {
+    ($($name:ident = ($y:expr, $m:expr, $d:expr, $h:expr, $mi:expr, $start:expr, $off:expr, $wrong:expr, $w:expr);)*) => {
+        $(
+            #[kani::proof]
+            #[kani::unwind(3)]
+            fn $name() {
+                new_at($y, $m, $d, $h, $mi, $start, $off, $wrong, $w)
+            }
+        )*
+    };
 }
 
-#[kani::proof]
-#[kani::unwind(3)]
-fn c14_new_before_epoch_minute() {
-    // 1969-12-31 23:59 (every local time here is before the epoch)
-    new_at(1969, time::Month::December, 31, 23, 59, -60, false)
-}
-
-#[kani::proof]
-#[kani::unwind(3)]
-fn c14_new_2024_minute() {
+new_proofs! {
+    // 1970-01-01 00:00, base = +30 s: forward edge at 32.99 s
+    c14_new_epoch_minute = (1970, time::Month::January, 1, 0, 0, 0, 30_000, false, false);
+    // base = +70 s: backward edge at 10.1 s
+    c14_new_epoch_minute_back = (1970, time::Month::January, 1, 0, 0, 0, 70_000, false, false);
+    // 1969-12-31 23:59 with base 0: every local time is before the epoch
+    c14_new_before_epoch_minute = (1969, time::Month::December, 31, 23, 59, -60, 60_000, false, false);
     // 2024-04-13 17:00 == 1713027600
-    new_at(2024, time::Month::April, 13, 17, 0, 1_713_027_600, false)
-}
-
-#[kani::proof]
-#[kani::unwind(3)]
-fn c14_new_2024_minute_witness() {
-    new_at(2024, time::Month::April, 13, 17, 0, 1_713_027_600, true)
-}
-
-#[kani::proof]
-#[kani::unwind(3)]
-fn c14_new_last_minute() {
+    c14_new_2024_minute = (2024, time::Month::April, 13, 17, 0, 1_713_027_600, 30_000, false, false);
+    c14_new_2024_minute_witness = (2024, time::Month::April, 13, 17, 0, 1_713_027_600, 30_000, false, true);
+    c14_new_2024_wrong_voucher = (2024, time::Month::April, 13, 17, 0, 1_713_027_600, 30_000, true, false);
     // 9999-12-31 23:59 == 253402300740
-    new_at(9999, time::Month::December, 31, 23, 59, 253_402_300_740, false)
+    c14_new_last_minute = (9999, time::Month::December, 31, 23, 59, 253_402_300_740, 70_000, false, false);
 }
